@@ -31,7 +31,7 @@ Qed.
 (* the header of a block that is not a scrut block *)
 Lemma header_foreign : forall n lang, (3 <= n)%nat -> (match lang with [] => false | c :: _ => negb (c =? BT) end) = true ->
   extract_code_block_start (fence n ++ lang) =
-  Some (n, lang_of lang, match split_at_brace lang with (_, Some c) => c | (_, None) => [] end).
+  Some (n, lang_of lang, match split_at_brace lang with (_, Some c) => trim_end c | (_, None) => [] end).
 Proof.
   intros n lang Hn Hl. destruct (head_not_bt lang Hl) as [Hne Hh].
   unfold extract_code_block_start. rewrite (count_bt_fence n lang Hh), skipn_fence.
@@ -62,6 +62,13 @@ Qed.
 
 Lemma trim_end_scrut_space : trim_end (SCRUT ++ [32]) = SCRUT.
 Proof. vm_compute. reflexivity. Qed.
+Lemma trim_end_scrut : trim_end SCRUT = SCRUT.
+Proof. vm_compute. reflexivity. Qed.
+Lemma trim_end_last : forall l x, is_white x = false -> trim_end (l ++ [x]) = l ++ [x].
+Proof.
+  intros l x H. unfold trim_end. rewrite rev_app_distr. cbn [rev app drop_while]. rewrite H.
+  change (x :: rev l) with ([x] ++ rev l). rewrite rev_app_distr, rev_involutive. reflexivity.
+Qed.
 
 Definition scrut_header (n : nat) (cfg : option text) : text :=
   fence n ++ SCRUT ++ match cfg with Some c => [32; 123] ++ c ++ [125] | None => [] end.
@@ -77,9 +84,11 @@ Proof.
   - change (SCRUT ++ [32; 123] ++ c ++ [125]) with ((SCRUT ++ [32]) ++ 123 :: (c ++ [125])).
     destruct ((SCRUT ++ [32]) ++ 123 :: c ++ [125]) as [|x r] eqn:Ex; [discriminate|]. rewrite <- Ex. rewrite E.
     rewrite split_at_brace_app by (vm_compute; reflexivity). rewrite trim_end_scrut_space.
-    exists (123 :: c ++ [125]). split; [reflexivity|]. apply (inner_config_braces c Hc).
+    exists (123 :: c ++ [125]). split.
+    + change (123 :: c ++ [125]) with ((123 :: c) ++ [125]). rewrite trim_end_last by (vm_compute; reflexivity). reflexivity.
+    + apply (inner_config_braces c Hc).
   - rewrite app_nil_r. change SCRUT with [115; 99; 114; 117; 116] at 1. cbv iota. rewrite E.
-    rewrite split_at_brace_none by (vm_compute; reflexivity). exists []. split; reflexivity.
+    rewrite split_at_brace_none by (vm_compute; reflexivity). rewrite trim_end_scrut. exists []. split; reflexivity.
 Qed.
 
 (* ---------- runs of the token automaton ---------- *)
